@@ -13,6 +13,7 @@ import (
 	"runtime"
 	"strconv"
 	"strings"
+	"time"
 	"testing"
 
 	"github.com/tokenized/pkg/bitcoin"
@@ -61,21 +62,29 @@ func c20decode(cs c20case) (err error) {
 	case "peers":
 		disk := NewSimDisk()
 		disk.Put("spynode/peers", cs.data)
-		return storage.NewPeerRepository(disk).Load(ctx)
+		repo := storage.NewPeerRepository(disk)
+		repo.Load(ctx)
+		return repo.Load(ctx) // the object stays usable after a failed load
 	case "reorg-active":
 		disk := NewSimDisk()
 		disk.Put("spynode/reorgs/active", cs.data)
-		_, err := storage.NewReorgRepository(disk).GetActive(ctx)
+		repo := storage.NewReorgRepository(disk)
+		repo.GetActive(ctx)
+		_, err := repo.GetActive(ctx)
 		return err
 	case "reorg-list":
 		disk := NewSimDisk()
 		disk.Put("spynode/reorgs/0011", cs.data)
-		_, err := storage.NewReorgRepository(disk).List(ctx)
+		repo := storage.NewReorgRepository(disk)
+		repo.List(ctx)
+		_, err := repo.List(ctx)
 		return err
 	case "unconfirmed":
 		disk := NewSimDisk()
 		disk.Put("spynode/txs/unconfirmed", cs.data)
-		return storage.NewTxRepository(disk).Load(ctx)
+		repo := storage.NewTxRepository(disk)
+		repo.Load(ctx)
+		return repo.Load(ctx)
 	case "blocks":
 		disk := NewSimDisk()
 		disk.Put("spynode/blocks/00000000", cs.data)
@@ -84,9 +93,11 @@ func c20decode(cs c20case) (err error) {
 		disk := NewSimDisk()
 		disk.Put(fmt.Sprintf("spynode/txs/%08x", 5), cs.data)
 		repo := storage.NewTxRepository(disk)
-		_, err := repo.GetBlock(ctx, 5)
-		if err == nil {
-			repo.ReleaseBlock(ctx, 5)
+		// twice: a failed read must leave the repository usable (no lock left held)
+		for k := 0; k < 2; k++ {
+			if _, err = repo.GetBlock(ctx, 5); err == nil {
+				repo.ReleaseBlock(ctx, 5)
+			}
 		}
 		return err
 	}
@@ -124,7 +135,20 @@ func TestC20Child(t *testing.T) {
 		out.Flush()
 		runtime.ReadMemStats(&ms)
 		before := ms.TotalAlloc
-		p := guard(func() { c20decode(c20case{kind: parts[0], data: data}) })
+		p := ""
+		doneCh := make(chan struct{})
+		go func() {
+			p = guard(func() { c20decode(c20case{kind: parts[0], data: data}) })
+			close(doneCh)
+		}()
+		select {
+		case <-doneCh:
+		case <-time.After(10 * time.Second):
+			// decoding does not return: report and let the parent restart behind this case
+			fmt.Fprintf(out, "H %d\n", i)
+			out.Flush()
+			os.Exit(0)
+		}
 		runtime.ReadMemStats(&ms)
 		alloc := ms.TotalAlloc - before
 		if p != "" {
@@ -419,6 +443,7 @@ func runC20(c *Ctx) {
 		cmd.Env = append(os.Environ(), "GOMAXPROCS=1", "GOMEMLIMIT=off")
 		outp, _ := cmd.Output()
 		started, finished := -1, -1
+		hung := false
 		for _, line := range strings.Split(string(outp), "\n") {
 			f := strings.SplitN(line, " ", 4)
 			if len(f) < 2 {
@@ -426,6 +451,8 @@ func runC20(c *Ctx) {
 			}
 			i, _ := strconv.Atoi(f[1])
 			switch f[0] {
+			case "H":
+				hung = true
 			case "S":
 				started = i
 			case "D", "P":
@@ -460,6 +487,11 @@ func runC20(c *Ctx) {
 		tail := string(outp)
 		if len(tail) > 300 {
 			tail = tail[len(tail)-300:]
+		}
+		if hung {
+			c.Violate("hang", c20class(cs), "decoding %d input bytes (%s) did not return within 10 s (the second use of the same repository object after a failed decode counts): input: %s", len(cs.data), cs.note, hexHead(cs.data))
+			next += started + 1
+			continue
 		}
 		c.Violate("alloc-fatal", c20class(cs), "the decoding process died while decoding %d input bytes (%s): out of memory or unrecoverable fault; input: %s", len(cs.data), cs.note, hexHead(cs.data))
 		next += started + 1
